@@ -611,7 +611,7 @@ fn script_expect(iface: &str, r: &ReqView, token: &Value) -> Expect {
             // to_upgraded(): the connection belongs to the interface once the call is over; what the
             // call may reply is not affected
             "u" => e.upgraded = Some(iface.to_string()),
-            "r" | "e" => {
+            "r" | "e" | "ei" | "em" | "en" => {
                 let idx = i;
                 i += 1;
                 if cont && !r.more {
@@ -624,8 +624,15 @@ fn script_expect(iface: &str, r: &ReqView, token: &Value) -> Expect {
                     }
                     continue;
                 }
+                let arg = format!("{}#{}", token.as_str().unwrap_or(""), idx);
                 let mut v = if base == "r" {
                     json!({"parameters": {"token": token, "i": idx}})
+                } else if base == "ei" {
+                    err_reply("org.varlink.service.InvalidParameter", json!({"parameter": arg}))
+                } else if base == "em" {
+                    err_reply("org.varlink.service.MethodNotFound", json!({"method": arg}))
+                } else if base == "en" {
+                    err_reply("org.varlink.service.MethodNotImplemented", json!({"method": arg}))
                 } else {
                     err_reply(
                         &format!("{}.ScriptError", iface),
